@@ -1,0 +1,51 @@
+//! Observation hooks for external model-based verification.
+//!
+//! This module only exists when the crate is built with `--cfg a2lfile_verif`.
+//! It exposes read-only views of crate-private stages (tokenizer, A2ML parser, byte decoder);
+//! it does not change any behaviour.
+
+use crate::tokenizer::A2lTokenType;
+use crate::Filename;
+use std::path::Path;
+
+/// one token as seen by the parser: (type name, text, line, fileid)
+pub type VerifToken = (&'static str, String, u32, usize);
+
+/// run the tokenizer (including /include resolution relative to `path`) and return the token stream
+pub fn tokenize(path: &Path, text: &str) -> Result<(Vec<VerifToken>, Vec<String>), crate::TokenizerError> {
+    let res = crate::tokenizer::tokenize(&Filename::from(path), 0, text)?;
+    let toks = res
+        .tokens
+        .iter()
+        .map(|t| {
+            let name = match t.ttype {
+                A2lTokenType::Identifier => "id",
+                A2lTokenType::Begin => "begin",
+                A2lTokenType::End => "end",
+                A2lTokenType::Include => "include",
+                A2lTokenType::String => "str",
+                A2lTokenType::Number => "num",
+                A2lTokenType::Comment => "cmt",
+            };
+            let data = &res.filedata[t.fileid];
+            (
+                name,
+                data.get(t.startpos..t.endpos).unwrap_or("<bad span>").to_string(),
+                t.line,
+                t.fileid,
+            )
+        })
+        .collect();
+    let names = res.filenames.iter().map(|f| f.to_string()).collect();
+    Ok((toks, names))
+}
+
+/// parse an A2ML definition and return the Debug rendering of the resulting type tree
+pub fn parse_a2ml(text: &str) -> Result<String, String> {
+    crate::a2ml::parse_a2ml(&Filename::from("(verif)"), text).map(|(spec, _)| format!("{spec:?}"))
+}
+
+/// the encoding detection cascade of the loader, without file IO and without BOM stripping
+pub fn decode_raw_bytes(data: &[u8]) -> String {
+    crate::loader::verif_decode_raw_bytes(data)
+}
